@@ -227,13 +227,7 @@ func TestC01_Proc(t *testing.T) {
 	haveBins(t, "procdriver")
 	r := ev.New(t, "C01", "TestC01_Proc")
 	eval := evalC01("TestC01_Proc")
-	ev.Run(t, r, genC01("proc", 3), func(c *peCase) ev.Verdict {
-		res := eval(c)
-		if res.Retry {
-			res = eval(c)
-		}
-		return res.V
-	})
+	ev.Run(t, r, genC01("proc", 3), retryOnce(eval))
 }
 
 // TestC01_Main: the real main in test mode, registration only; conversations are
